@@ -24,13 +24,13 @@ def run(ctx):
     rng = random.Random(ctx.seed)
     quick = ctx.quick()
     ctx.rule = ("spaces = every table printed by BSplinesMC (degree 1-5, clamped / periodic / uniform-cubic fast path with 1..%d cells, "
-                "uniform and non-uniform integer breakpoints in 0..7) x 2 affine maps; distinct = (space, periodic, map); all non-trivial" % (5 if quick else 6))
+                "uniform and non-uniform integer breakpoints in 0..7) x 4 affine maps (cell widths 1, 1/4, 2^-30, 1024); distinct = (space, periodic, map); all non-trivial" % (5 if quick else 6))
     spaces = so.run_box(ctx, 5, 5 if quick else 6, 7)
     ctx.exhaustive = True
     n = 0
     for sp0 in spaces:
         for (sp, periodic) in variants(sp0):
-            for (a, h) in ((0.0, 1.0), (0.5, 0.25)):
+            for (a, h) in ((0.0, 1.0), (0.5, 0.25), (0.0, 2.0 ** -30), (3.0, 1024.0)):      # incl. a tiny and a large domain: tolerances scale with h
                 sig0 = {"path": sp.kind, "periodic": periodic, "uniform": sp.uniform, "cells": sp.ncells if sp.ncells < 3 else "3+"}
                 try:
                     basis = sp.make(a, h)
@@ -44,12 +44,14 @@ def run(ctx):
                 n += 1
                 ctx.count((sp.key(), periodic, a, h))
                 xg = np.array(basis.greville, dtype=float)
-                xi = [min(max(so.to_int_coord(x, a, h), Fr(sp.br[0])), Fr(sp.br[-1])) for x in xg]
+                # the interpolation points exactly as the code has them (splines.py rounds them to 15 decimals: on a tiny domain they move
+                # by a visible fraction of a cell, even slightly outside the domain; the polynomial pieces extend there)
+                xi = [so.to_int_coord(x, a, h) for x in xg]
                 M = colloc(sp, xi, periodic)
                 cond = float(np.linalg.cond(M))
                 if cond > 1e8:
                     continue
-                tol = 1e-11 * cond * 50 * max(1.0, h)
+                tol = 1e-11 * cond * 50 * h
                 # exact integrals of the wrapped basis functions
                 nb = sp.ncells if periodic else sp.nb
                 want = np.zeros(nb)
@@ -62,9 +64,9 @@ def run(ctx):
                     st = np.zeros(nb)
                     for j in range(sp.nb):
                         st[j % nb] += stored[j]
-                    bad = not np.max(np.abs(st - want)) <= 1e-12 * max(1.0, h) * 10
+                    bad = not np.max(np.abs(st - want)) <= 1e-12 * h * 10
                 else:
-                    bad = len(stored) != sp.nb or not np.max(np.abs(stored - exact_i)) <= 1e-12 * max(1.0, h) * 10
+                    bad = len(stored) != sp.nb or not np.max(np.abs(stored - exact_i)) <= 1e-12 * h * 10
                 if bad:
                     dev = (stored - exact_i) if len(stored) == sp.nb else None
                     ctx.violation(dict(sig0, kind="stored-integrals"),
@@ -81,7 +83,9 @@ def run(ctx):
                 if not abs(float(np.sum(q)) - length) <= tol:
                     ctx.violation(dict(sig0, kind="weights-sum"), "weights sum to %r, domain length %r (space %s)" % (float(np.sum(q)), length, sp.key()),
                                   {"space": sp.key(), "periodic": periodic, "map": [a, h], "weights": q.tolist()})
-                if periodic and sp.uniform and not np.max(np.abs(q - q[0])) <= tol:
+                dxi = [float(xi[k + 1] - xi[k]) for k in range(len(xi) - 1)] + ([float(xi[0] + (sp.br[-1] - sp.br[0]) - xi[-1])] if periodic else [])
+                pts_uniform = len(dxi) < 2 or max(abs(d - dxi[0]) for d in dxi) <= 1e-10      # (not after 15-decimal rounding on a tiny domain)
+                if periodic and sp.uniform and pts_uniform and not np.max(np.abs(q - q[0])) <= tol:
                     ctx.violation(dict(sig0, kind="weights-not-equal"), "uniform periodic space: weights %s are not all equal" % q.tolist(),
                                   {"space": sp.key(), "weights": q.tolist()})
                 # the defining statement on random data: q.u = integral of the interpolant of u
